@@ -49,9 +49,24 @@ Proof.
   eexists. reflexivity.
 Qed.
 
-Theorem carrysave_width1_refuted :
+(* carrysave_adder as the code is (after fix 36743df): total and exact *)
+Theorem carrysave_exact add a b c :
+  adder_ok add ->
+  exists r, carrysave_adder add a b c = Some r /\ bval r = bval a + bval b + bval c.
+Proof.
+  intros Hadd. unfold carrysave_adder.
+  set (n := Nat.max (length a) (Nat.max (length b) (length c))).
+  destruct (map3_cs (zext n a) (zext n b) (zext n c)) as [Hv _].
+  { rewrite !length_zext. lia. }
+  { rewrite !length_zext. lia. }
+  rewrite !bval_zext in Hv.
+  eexists. split; [reflexivity|]. rewrite Hadd. cbn [bval b2z]. lia.
+Qed.
+
+(* before the fix it raised on three one-bit operands (F12) *)
+Theorem carrysave_prefix_width1_refuted :
   exists a b c, length a = 1%nat /\ length b = 1%nat /\ length c = 1%nat /\
-                carrysave_adder add_ripple a b c = None.
+                carrysave_adder_with true add_ripple a b c = None.
 Proof. exists [true], [true], [true]. vm_compute. repeat split; reflexivity. Qed.
 
 (* ------------------------------------------------------ congruence mod 2^rw *)
@@ -164,14 +179,44 @@ Proof.
     cbn [colsum popc bval length]. rewrite IH1, Nat2Z.inj_succ, Z.pow_succ_r by lia. ring.
 Qed.
 
+Definition split_ok (split : list (list bool) -> option (list bool * list (list bool))) : Prop :=
+  forall cols pre z, all_le2 cols = true -> split cols = Some (pre, z) ->
+    colsum cols = bval pre + 2 ^ Z.of_nat (length pre) * colsum z /\ all_le2 z = true.
+
+Lemma sparse_split_ok : split_ok sparse_split.
+Proof. intros cols pre z. apply sparse_split_spec. Qed.
+
+Lemma sparse_split_total_ok : split_ok sparse_split_total.
+Proof.
+  intros cols. induction cols as [|c rest IH]; intros pre z Hall H; cbn [sparse_split_total] in H.
+  - injection H as <- <-. cbn. split; reflexivity.
+  - pose proof Hall as Hall'. cbn [all_le2 forallb] in Hall'. apply andb_prop in Hall'.
+    destruct Hall' as [Hc Hr].
+    destruct (length c =? 2)%nat eqn:E.
+    + injection H as <- <-. cbn [bval length]. change (2 ^ Z.of_nat 0) with 1. split; [lia|exact Hall].
+    + destruct (sparse_split_total rest) as [[pre' z']|] eqn:Es; [|discriminate].
+      injection H as <- <-.
+      destruct (IH pre' z' Hr eq_refl) as [IH1 IH2]. split; [|exact IH2].
+      assert (Hp : popc c = b2z (nth 0 c false)).
+      { destruct c as [|x [|y [|w t]]]; cbn [length] in *; try lia; cbn [popc nth b2z]; lia. }
+      cbn [colsum bval length]. rewrite Hp, IH1, Nat2Z.inj_succ, Z.pow_succ_r by lia. ring.
+Qed.
+
+Lemma sparse_adder_with_spec split add cols r :
+  split_ok split -> adder_ok add -> all_le2 cols = true ->
+  sparse_adder_with split add cols = Some r -> bval r = colsum cols.
+Proof.
+  intros Hsplit Hadd Hall H. unfold sparse_adder_with in H.
+  destruct (split cols) as [[pre z]|] eqn:Es; [|discriminate].
+  destruct (Hsplit cols pre z Hall Es) as [H1 H2].
+  destruct z as [|c0 z0].
+  - injection H as <-. rewrite H1. cbn [colsum]. lia.
+  - injection H as <-. rewrite bval_app, Hadd, H1, (zip_sum _ H2). reflexivity.
+Qed.
+
 Lemma sparse_adder_spec add cols r :
   adder_ok add -> all_le2 cols = true -> sparse_adder add cols = Some r -> bval r = colsum cols.
-Proof.
-  intros Hadd Hall H. unfold sparse_adder in H.
-  destruct (sparse_split cols) as [[pre z]|] eqn:Es; [|discriminate].
-  injection H as <-. destruct (sparse_split_spec cols pre z Hall Es) as [H1 H2].
-  rewrite bval_app, Hadd, H1, (zip_sum z H2). reflexivity.
-Qed.
+Proof. unfold sparse_adder. apply sparse_adder_with_spec. exact sparse_split_ok. Qed.
 
 Lemma colsum_mod_of_firstn rw r x : eqm rw (bval r) x -> bval (firstn rw r) = x mod 2 ^ Z.of_nat rw.
 Proof. intros H. rewrite bval_firstn. exact H. Qed.
